@@ -2,10 +2,10 @@
 # seed_batch.sh <Cxx> <seeddir> <worktree> <k...>: confirm + check each seed, store under /verif/seeded/
 prop=$1; sd=$2; wt=$3; shift 3
 for k in "$@"; do
-  out=/verif/seeded/${prop}-$k
+  out=/verif/seeded/${prop}-${TAG}$k
   mkdir -p $out
   cp $sd/$k/patch.diff $out/ 2>/dev/null
   for f in demo.cpp demo.c demo.sh demo.py notes.md; do [ -f $sd/$k/$f ] && cp $sd/$k/$f $out/; done
   python3 /verif/tools/seed_confirm.py $prop $sd/$k $wt > $out/confirm.json 2>&1
-  echo "$prop-$k: $(python3 -c "import json;d=json.load(open('$out/confirm.json'));print('tests',d.get('tests_pass_with_patch'),'demoFail',d.get('demo_fails_with_patch'),'demoClean',d.get('demo_passes_on_clean'),'DETECTED',d.get('detected'),d.get('violation_lines',[])[:2])" 2>&1)"
+  echo "$prop-${TAG}$k: $(python3 -c "import json;d=json.load(open('$out/confirm.json'));print('tests',d.get('tests_pass_with_patch'),'demoFail',d.get('demo_fails_with_patch'),'demoClean',d.get('demo_passes_on_clean'),'DETECTED',d.get('detected'),d.get('violation_lines',[])[:2])" 2>&1)"
 done
